@@ -390,7 +390,7 @@ def run(ctx):
         sel = [('Serial', 'OpenMP')[k % 2], O.LAUNCH_MODES[k % 5], O.LAUNCH_MODES[(k + 2) % 5]]
         return [m for m in sel if m in ms]
     wv = [dict(N=4, W=2, H=2, M=2, s=1, m=1, flag=1, off=1), dict(N=0, W=0, H=0, M=0, s=0, m=0, flag=0, off=0), dict(N=8, W=4, H=2, M=1, s=2, m=-1, flag=-1, off=5), dict(N=2, W=1, H=1, M=2, s=1, m=2, flag=2, off=0)]
-    qs, rejected = O.make_queries(ctx, progs, O.MODES, harness, known_keys=list(known), timeout=900 if thorough else 240, witness_vectors=wv, modes_of=modes_of)
+    qs, rejected = O.make_queries(ctx, progs, O.MODES, harness, known_keys=list(known), timeout=1500 if thorough else 900, witness_vectors=wv, modes_of=modes_of)
     C.run_queries(ctx, qs)
     ctx.extra['programs'] = len(progs)
     ctx.extra['programs_rejected_by_occa'] = rejected[:40]
